@@ -19,7 +19,11 @@ SOFT = ("nometh", "nodata")
 THEOREMS = ["Kdf.Props.C09." + t for t in (
     "op_passthrough", "op_target_in_caps", "op_calls_once", "op_ok_only_by_callback", "op_no_oob", "linear_shortcut_eq_walk",
     "tryAlt_eq_spec", "doOp_eq_spec", "op_eq_composition", "conv_single_target", "conv_fail_unchanged",
-    "inflight_distinct", "op_limit_conservative")]
+    "inflight_distinct", "op_limit_conservative",
+    # Kdf/Props/C09Read.lean: reads through a re-entrant get-page callback (model Kdf.Model.RCache), custom methods
+    "read_nesting_bounded", "read_hit_no_callback", "read_self_fetch_detected", "walk_custom_eq_spec")]
+MODULES = ["Kdf.Props.C09", "Kdf.Props.C09Read"]
+GP_RUNAWAY = 200        # harness/s_sys.c gives up at this nesting of get-page callbacks
 
 
 # --------------------------------------------------------------------------- memory
@@ -91,6 +95,8 @@ class Spec:
         self.newsys()
         self.rcaps = 0
 
+    reent = ()
+
     def newsys(self):
         self.maps = [None] * 5
         self.meths = [("nometh",)] * 16
@@ -111,7 +117,14 @@ class Spec:
         elif k == "null":
             self.mem.bad[(int(w[1]), int(w[2]))] = "nodata"
         elif k == "clr":
-            self.mem.ovr.clear(); self.mem.bad.clear()
+            self.mem.ovr.clear(); self.mem.bad.clear(); self.reent = ()
+        elif k == "reent":
+            self.reent = () if w[1] == "off" else tuple(w[2].split(","))
+        elif k == "rd":
+            # the cache and the callback's own reads decide whether the read succeeds (model: Kdf.Model.RCache);
+            # the specification only says what a successful read returns: the memory content
+            st, v = self.mem.read(int(w[1]), int(w[2]), 8)
+            return "rd-value %d" % v if st == "ok" else "?"
         elif k == "newsys":
             self.newsys()
         elif k == "rcaps":
@@ -122,6 +135,11 @@ class Spec:
             slot, kind = int(w[1]), w[2]
             if kind == "nometh":
                 m = ("nometh",)
+            elif kind == "custom":
+                def arm(x):
+                    x = x.split(":")
+                    return (x[0], int(x[1]), int(x[2])) if x[0] in "fs" else (x[0], x[1])
+                m = ("custom", int(w[3]), int(w[4]), arm(w[5]), arm(w[6]))
             elif kind == "linear":
                 m = ("linear", int(w[3]), int(w[4]))
             elif kind == "pgt":
@@ -139,6 +157,8 @@ class Spec:
             else:
                 self.maps[idx] = [tuple(int(y) for y in x.split(":")) for x in w[2].split(",") if x]
             return "map %d %s" % (idx, w[2])
+        elif k in ("op", "conv") and self.reent:
+            return "?"              # the get-page callback re-enters the library: outside this specification
         elif k == "op":
             caps, as_, addr, cbst = int(w[1]), int(w[2]), int(w[3]), w[4]
             r = self.op(caps, (as_, addr), ())
@@ -188,6 +208,16 @@ class Spec:
             return ("err", "nometh")
         if k == "linear":
             return ("ok", m[1], (addr + m[2]) % W)
+        if k == "custom":
+            # a custom method is its callback; where the callback completes the translation itself the result is in
+            # the address space the callback chose, whatever target_as declares
+            _, t, mask, hit, miss = m
+            arm = hit if addr & mask else miss
+            if arm[0] == "f":
+                return ("ok", arm[1], (addr + arm[2]) % W)
+            if arm[0] == "s":
+                return ("ok", t, (arm[2] + addr) % W)
+            return ("err", arm[1])
         if k == "lookup":
             _, t, endoff, tbl = m
             for orig, dest in tbl:
@@ -303,6 +333,8 @@ def meth_line(slot, m):
         return "meth %d nometh" % slot
     if k == "linear":
         return "meth %d linear %d %d" % (slot, m[1], m[2])
+    if k == "custom":
+        return "meth %d custom %d %d %s %s" % (slot, m[1], m[2], ":".join(map(str, m[3])), ":".join(map(str, m[4])))
     if k == "pgt":
         return "meth %d pgt %s %d %d %d %d %s" % (slot, m[1], m[2], m[3], m[4], m[5], ",".join(map(str, m[6])))
     if k == "lookup":
@@ -332,6 +364,22 @@ def rand_as(rng, noaddr=0.03):
     return NOADDR if rng.random() < noaddr else rng.choice((0, 1, 2))
 
 
+def rand_arm(rng, t):
+    k = rng.random()
+    off = rng.choice([0, 0x1000, 0x800000, 0x40000, W - 0x1000, W - 0xffff880000000000, rng.getrandbits(20) << 12])
+    if k < 0.55:
+        # finishes in its first step; mostly in a space other than the declared one
+        return ("f", rng.choice([a for a in (0, 1, 2, NOADDR) if a != t] * 2 + [t]), off)
+    if k < 0.8:
+        return ("s", rand_as(rng), off)
+    return ("e", rng.choice(["nometh", "nodata", "notpresent", "invalid", "notimpl", "nomem"]))
+
+
+def rand_custom(rng):
+    t = rand_as(rng, 0.02)
+    return ("custom", t, rng.choice([0x1000, 0x2000, 1 << 63, 0xfff, 8, 0, FULL]), rand_arm(rng, t), rand_arm(rng, t))
+
+
 def rand_meth(rng):
     k = rng.random()
     if k < 0.28:
@@ -347,7 +395,9 @@ def rand_meth(rng):
         elemsz = rng.choice([valsz, valsz, 8, 16, 3, 1]) if valsz != 2 else 8
         return ("memarr", rand_as(rng, 0.02), rand_as(rng), rng.choice(PAGES) + 8 * rng.randrange(4),
                 rng.choice([0, 12, 12, 16, 21, 30]), elemsz, valsz)
-    if k < 0.92:
+    if k < 0.86:
+        return rand_custom(rng)
+    if k < 0.94:
         endoff = rng.choice([0xfff, 0xfff, 0xffff, 0])
         tbl = [(rng.choice(PAGES + POINTS[:8]), rng.choice(PAGES) + rng.choice([0, 0, 0x100000])) for _ in range(rng.randint(0, 4))]
         return ("lookup", rand_as(rng, 0.02), endoff, tbl)
@@ -588,21 +638,124 @@ def block_mutual(rng, nops):
     return L + op_lines(rng, S, addrs, nops, caps_pool=[1, 2, 4, 3, 6, 5, 7])
 
 
+def block_custom(rng, nops):
+    """ADDRXLAT_CUSTOM methods whose callback finishes in its first step in an address space of its own choice
+    (different from target_as), leaves a linear level to the library, or fails; linear second stages behind them"""
+    S = Spec(); L = []
+    def f(ln):
+        L.append(ln); S.feed(ln)
+    f("clr"); f("newsys"); f(mem_line(rng, 0.8)); f("rcaps %d" % rng.choice([1, 2, 3, 7]))
+    where = rng.choice([M_KV_PHYS, M_KV_PHYS, M_HW, M_KPHYS_MACHPHYS, M_MACHPHYS_KPHYS, M_KPHYS_DIRECT])
+    src = EXPECT[where]
+    t = rng.choice([a for a in (0, 1, 2) if a != src])
+    other = [a for a in (0, 1, 2) if a not in (src, t)][0]
+    mask = rng.choice([0x1000, 0x2000, 0x8000, 8])
+    shape = rng.random()
+    if shape < 0.6:
+        # the demonstration's shape: one class of addresses comes out in the declared space, the other one elsewhere
+        hit, miss = ("f", other, rng.choice([0x800000, 0, 0x1000])), rng.choice([("f", t, 0x40000), ("s", rng.choice((0, 1, 2)), 0x40000)])
+        if rng.random() < 0.5:
+            hit, miss = miss, hit
+    else:
+        hit, miss = rand_arm(rng, t), rand_arm(rng, t)
+    f(meth_line(0, ("custom", t, mask, hit, miss)))
+    f(map_line(where, tiling([rng.choice([0x4000, 0x10000, 1 << 32])], rng.choice([[0, -1], [0], [-1, 0], [0, 5]]))))
+    # the other stages: linear, sometimes missing, sometimes a second custom method
+    for slot, (mi, tas) in enumerate(((M_MACHPHYS_KPHYS, KPHYS), (M_KPHYS_MACHPHYS, MACHPHYS), (M_KPHYS_DIRECT, KV), (M_KV_PHYS, KPHYS)), 1):
+        if mi == where or rng.random() < 0.25:
+            continue
+        m = ("linear", tas, rng.choice([0x300000, W - 0x500000, 0, 0x1000])) if rng.random() < 0.8 else rand_custom(rng)
+        f(meth_line(slot, m)); f(map_line(mi, [(FULL, slot)]))
+    if rng.random() < 0.3:
+        f(meth_line(5, rand_meth(rng)))
+    addrs = []
+    for _ in range(8):
+        a = rng.choice(PAGES) + 8 * rng.randrange(512)
+        addrs += [(src, a), (src, a ^ mask)]
+    addrs += [(as_, rng.choice(PAGES)) for as_ in (0, 1, 2)] + [(src, 0x4000), (src, 0x3fff), (src, 1 << 32)]
+    return L + op_lines(rng, S, addrs, nops)
+
+
+def block_reent(rng, nops):
+    """a get-page callback that reads through the same context before it delivers a page (frame table in the memory it
+    describes): self-hosted entries, chains, mutual dependencies, chains longer than any nesting limit; cold and warm
+    read cache (0..6 earlier reads); direct reads (`rd`, modelled by Kdf.Model.RCache) and whole conversions"""
+    S = Spec(); L = []
+    def f(ln):
+        L.append(ln); S.feed(ln)
+    f("clr"); f("newsys"); f(mem_line(rng, 0.6))
+    ras = rng.choice((0, 0, 1, 2))
+    f("rcaps %d" % rng.choice([1 << ras, 1 << ras, 7, 3 | (1 << ras), 7 & ~(1 << ras)]))
+    base = 16 + rng.randrange(8)                    # frame-table pages start here; pages 1..12 (PAGES) are ordinary
+    shape = rng.choice(["self", "self", "self", "chain", "mutual", "deep", "mixed"])
+    tbl = {}
+    off = lambda: 8 * rng.randrange(512)
+    if shape in ("self", "mixed"):
+        tbl[base] = base * 0x1000 + off()
+        if rng.random() < 0.5:
+            tbl[base + 1] = base * 0x1000 + off()   # needs the self-hosted page
+    if shape in ("chain", "mixed"):
+        n = rng.randint(2, 4)
+        for i in range(n):
+            tbl[base + 2 + i] = (base + 3 + i) * 0x1000 + off() if i + 1 < n else rng.choice(PAGES) + off()
+    if shape == "mutual":
+        tbl[base] = (base + 1) * 0x1000 + off(); tbl[base + 1] = base * 0x1000 + off()
+        if rng.random() < 0.5:
+            tbl[base + 2] = base * 0x1000 + off()
+    if shape == "deep":
+        n = rng.choice([15, 16, 17, 20])
+        for i in range(n):
+            tbl[base + i] = (base + i + 1) * 0x1000 + off()
+    if rng.random() < 0.3:
+        tbl[rng.choice(PAGES) >> 12] = rng.choice(PAGES) + off()       # an ordinary page that depends on another one
+    for _ in range(rng.randint(0, 2)):                                  # unreadable / empty pages (before the cache is warmed)
+        pg = rng.choice(list(tbl)) * 0x1000 if rng.random() < 0.5 else rng.choice(PAGES)
+        f("null %d %d" % (ras, pg) if rng.random() < 0.4 else "bad %d %d %s" % (ras, pg, rng.choice(["nodata", "notpresent", "nomem"])))
+    f("reent %d %s" % (ras, ",".join("%d:%d" % kv for kv in sorted(tbl.items()))))
+    # a system whose KPHYS -> MACHPHYS stage looks frames up in that table
+    f(meth_line(0, ("memarr", MACHPHYS, ras, base * 0x1000, 12, 8, 8)))
+    f(map_line(M_KPHYS_MACHPHYS, [(FULL, 0)]))
+    f("newctx")
+    pool = [p * 0x1000 + off() for p in tbl] + [a for a in tbl.values()] + [rng.choice(PAGES) + off() for _ in range(3)]
+    warm = rng.choice([0, 0, 1, 2, 3, 4, 4, 5, 6])
+    for pg in rng.sample(PAGES, warm):
+        f("rd %d %d" % (ras, pg + off()))
+    for _ in range(nops):
+        k = rng.random()
+        if k < 0.7:
+            f("rd %d %d" % (ras if rng.random() < 0.9 else rng.choice((0, 1, 2)), rng.choice(pool)))
+        elif k < 0.78:
+            f("newctx")
+        else:
+            # whole conversions under the re-entrant callback (not modelled: monitors only), then a fresh context
+            a = rng.choice(pool)
+            f(rng.choice(["conv 1 0 %d" % a, "op 2 0 %d ok" % a, "conv %d %d %d" % (rng.choice((0, 1, 2)), ras, a)]))
+            f("newctx")
+    return L
+
+
 def gen(R, nb):
     quick = R.tier == "quick"
     blocks = []
     for i in range(nb):
-        k = i % 10
+        k = i % 12
         if k < 6:
             blocks.append(("soup", block_soup(R.rng, 22 if quick else 26)))
         elif k < 8:
             blocks.append(("twostage", block_twostage(R.rng, 16)))
-        else:
+        elif k < 10:
             blocks.append(("mutual", block_mutual(R.rng, 12)))
+        elif k < 11:
+            blocks.append(("custom", block_custom(R.rng, 14)))
+        else:
+            blocks.append(("reent", block_reent(R.rng, 12)))
     return blocks
 
 
 # ------------------------------------------------------------------- property check
+NEST_BOUND = [GP_RUNAWAY]       # MAX_READ_NESTING of the working tree once run() has extracted it
+
+
 def split_obs(o):
     head, _, tail = o.partition(" | ")
     meas = dict(kv.split("=") for kv in tail.split()) if tail else {}
@@ -613,10 +766,24 @@ def check_line(line, impl_obs, expect):
     """The property's executable statement on one observation of the implementation.
     Returns an error message or None."""
     w = line.split()
+    if impl_obs.startswith("RUNAWAY"):
+        return "the call never came back: %s (unbounded recursion)" % impl_obs
+    if w[0] == "rd":
+        t = impl_obs.split()
+        kv = dict(x.split("=") for x in t if "=" in x)
+        if t[0] != "rd" or "nest" not in kv:
+            return "malformed observation %r" % impl_obs
+        if int(kv["nest"]) > NEST_BOUND[0]:
+            return "get-page callbacks nested %s deep (bound %d)" % (kv["nest"], NEST_BOUND[0])
+        if t[1] == "ok" and expect and expect.startswith("rd-value") and int(t[2]) != int(expect.split()[1]):
+            return "a successful read returned %s, the memory holds %s there" % (t[2], expect.split()[1])
+        return None
     head, meas = split_obs(impl_obs)
     t = head.split()
     if w[0] == "map":
         return None if head == expect else "map set up as %r, expected %r" % (head, expect)
+    if meas.get("nest", 0) > NEST_BOUND[0]:
+        return "get-page callbacks nested %d deep (bound %d)" % (meas["nest"], NEST_BOUND[0])
     if meas.get("depth", 0) > MAXD:
         return "translations nested %d deep (bound %d)" % (meas["depth"], MAXD)
     if meas.get("left", 0) != 0:
@@ -662,12 +829,15 @@ def check_line(line, impl_obs, expect):
     return None
 
 
+PRODUCES = ("map", "op", "conv", "rd")
+
+
 def evaluate(R, exe, lines, timeout=600):
     """run implementation, model and specification on a script.
     Returns (impl_obs, model_obs, expects, obs_line_index, keep_mask, rc, stderr)"""
     text = "\n".join(lines) + "\n"
     model_all = kdf.obs(R.run_driver("sys", text))
-    produces = [i for i, l in enumerate(lines) if l.split()[0] in ("map", "op", "conv")]
+    produces = [i for i, l in enumerate(lines) if l.split()[0] in PRODUCES]
     if len(model_all) != len(produces):
         raise kdf.CheckBroken("driver produced %d observations for %d operations" % (len(model_all), len(produces)))
     drop = {produces[j] for j, o in enumerate(model_all) if "unaligned" in o}
@@ -681,7 +851,7 @@ def evaluate(R, exe, lines, timeout=600):
     idx = []
     for i, l in enumerate(kept):
         e = S.feed(l)
-        if l.split()[0] in ("map", "op", "conv"):
+        if l.split()[0] in PRODUCES:
             expects.append(e); idx.append(i)
     return kept, impl, model, expects, idx, rc, err, kept_pos
 
@@ -698,17 +868,23 @@ def first_failure(kept, impl, model, expects, idx, rc, err):
         why = next((l for l in first if "ERROR" in l or "runtime error" in l or "TIMEOUT" in l), first[0] if first else "")
         return j, "no result for `%s`: the call did not return (rc=%s) %s" % (kept[idx[j]], rc, why.strip()[:200]), True
     for j in range(len(idx)):
+        if model[j].endswith(" ?"):
+            continue                # outside the model (conversion under a re-entrant get-page callback)
         if split_obs(impl[j])[0] != model[j]:
             return j, "model mismatch on `%s`: implementation %r, model %r" % (kept[idx[j]], impl[j], model[j]), False
     return None
 
 
-SETUP = ("meth", "map", "ovr", "bad", "null")
+SETUP = ("meth", "map", "ovr", "bad", "null", "rd", "newctx")
 
 
-def shrink(R, exe, block, fail_line):
-    """smallest script (setup lines of the block + the one failing operation) that still fails"""
-    setup = [l for l in block if l.split()[0] not in ("op", "conv")]
+def shrink(R, exe, block, fail_line, pos=None):
+    """smallest script (setup lines of the block + the one failing operation) that still fails.
+    A direct read (`rd`) depends on the reads before it (state of the read cache): only what precedes it is kept."""
+    if fail_line.split()[0] == "rd" and pos is not None:
+        setup = [l for l in block[:pos] if l.split()[0] not in ("op", "conv")]
+    else:
+        setup = [l for l in block if l.split()[0] not in ("op", "conv", "rd", "newctx")]
     cur = setup + [fail_line]
     def fails(ls):
         try:
@@ -765,15 +941,21 @@ def extract_chains(repo):
     parts.append("expect=" + ",".join(str(ex.get(i, "?")) for i in range(5)))
     m = re.search(r"#define\s+MAX_INFLIGHT\s+(\d+)", src)
     parts.append("max_inflight=%s" % (m.group(1) if m else "none"))
+    priv = open(os.path.join(repo, "src/addrxlat/addrxlat-priv.h")).read()
+    for name in ("READ_CACHE_SLOTS", "MAX_READ_NESTING"):
+        m = re.search(r"#define\s+%s\s+(\d+)" % name, priv)
+        parts.append("%s=%s" % (name.lower(), m.group(1) if m else "none"))
     return "chains " + " ".join(parts)
 
 
 # ----------------------------------------------------------------------------- run
 def run(R):
-    proof = R.prove(["Kdf.Props.C09"], THEOREMS)
+    proof = R.prove(MODULES, THEOREMS)
     exe = R.build_harness("s_sys", ["s_sys.c"])
     facts_impl = extract_chains(kdf.REPO)
     facts_model = kdf.obs(R.run_driver("sys", "chains\n"))[0]
+    m = re.search(r"max_read_nesting=(\d+)", facts_impl or "")
+    NEST_BOUND[0] = int(m.group(1)) if m else GP_RUNAWAY
     nchunks, per = (3, 3000) if R.tier == "quick" else (60, 5000)
     kinds, nontriv, specd, nops, nimpl, ndropped, nblocks = {}, set(), 0, 0, 0, 0, 0
     reported = False
@@ -783,9 +965,9 @@ def run(R):
         nblocks += len(blocks)
         if sample is None:
             sample = blocks[0][1]
-        lines, owner = [], []
+        lines, owner, starts = [], [], []
         for bi, (_, b) in enumerate(blocks):
-            lines += b; owner += [bi] * len(b)
+            starts.append(len(lines)); lines += b; owner += [bi] * len(b)
         kept, impl, model, expects, idx, rc, err, kept_pos = evaluate(R, exe, lines)
         ndropped += len(lines) - len(kept)
         kept_owner = [owner[i] for i in kept_pos]
@@ -794,7 +976,7 @@ def run(R):
             j, msg, is_prop = ff
             fail_line = kept[idx[j]]
             kind, block = blocks[kept_owner[idx[j]]]
-            small = shrink(R, exe, block, fail_line)
+            small = shrink(R, exe, block, fail_line, kept_pos[idx[j]] - starts[kept_owner[idx[j]]])
             rep = dict(stream="sys", generator=kind, input="\n".join(small) + "\n", failing_line=fail_line,
                        impl_output=impl[j] if j < len(impl) else None, expected=expects[j], model_output=model[j],
                        stderr=err[-1200:] if j >= len(impl) else "",
@@ -807,17 +989,24 @@ def run(R):
         # coverage accounting
         for j in range(min(len(impl), len(idx))):
             l = kept[idx[j]]
-            if l.split()[0] == "map":
+            if l.split()[0] == "map" or impl[j].startswith("RUNAWAY"):
                 continue
             head, meas = split_obs(impl[j])
             t = head.split()
+            if t[0] == "rd":
+                kv = dict(x.split("=") for x in t if "=" in x)
+                k = "rd/%s/n%s" % (t[1], kv.get("nest"))
+                kinds[k] = kinds.get(k, 0) + 1
+                if int(kv.get("nest", 0)) >= 2 or (t[1] != "ok" and int(kv.get("gp", 0)) >= 1):
+                    nontriv.add(hash((ci, kept_owner[idx[j]], j)))
+                continue
             k = "%s/%s/d%d" % (t[0], t[1], min(meas.get("depth", 0), MAXD))
             kinds[k] = kinds.get(k, 0) + 1
             if expects[j] != "?":
                 specd += 1
             if meas.get("depth", 0) >= 1 or meas.get("pages", 0) >= 1:
                 nontriv.add(hash((ci, kept_owner[idx[j]], l)))
-        nops += sum(1 for l in kept if l.split()[0] in ("op", "conv"))
+        nops += sum(1 for l in kept if l.split()[0] in ("op", "conv", "rd"))
         nimpl += len(impl)
         if reported:
             break
@@ -829,26 +1018,39 @@ def run(R):
     cov = dict(obligations=max(proof["obligations"], 1), discharged=proof["discharged"],
                checker_cmd="cd lean && lake build Kdf.Props.C09 && #print axioms on each theorem",
                trusted_base=["Lean 4 kernel", "axioms: " + ", ".join(sorted({a for v in proof["axioms"].values() for a in v}) or ["none"]),
-                             "harness/s_sys.c + gcc + ASan/UBSan", "read cache of ctx.c transparent for a deterministic get_page (observed, not proved)",
+                             "harness/s_sys.c + gcc + ASan/UBSan",
+                             "read cache of ctx.c transparent for a deterministic, non-re-entrant get_page inside op/conv (observed, not proved); "
+                             "for direct reads (rd) get_cache_buf itself is modelled (Kdf.Model.RCache), re-entrant callback included",
                              "Python Spec in tools/props/c09.py (independent expectation)"],
                broken_theorems=proof["broken"], theorems=THEOREMS, evaluations=nops, distinct_nontrivial=len(nontriv),
                rule="blocks of one translation system each (soup: random kinds/parameters in up to 9 method slots, random tilings of the 5 maps "
                     "with cut points from a breakpoint set, tables built where the library will read them; twostage: KV->KPHYS->MACHPHYS with both "
-                    "stages' tables at the same numeric pages; mutual: self- and mutually-referential table roots), each followed by op/conv calls "
+                    "stages' tables at the same numeric pages; mutual: self- and mutually-referential table roots; custom: ADDRXLAT_CUSTOM methods whose "
+                    "callback finishes in its first step in a space other than target_as / leaves a linear level / fails, in every map, with "
+                    "linear or custom second stages; reent: a get-page callback that first reads a frame-table entry through the same context - "
+                    "self-hosted entries, chains, mutual pairs, chains of 15..20 pages - after 0..6 earlier reads (cold/warm cache), as direct "
+                    "reads `rd` (modelled) and whole conversions (monitors only)), each followed by op/conv calls "
                     "over all capability masks and source spaces at range boundaries +-1; non-trivial = distinct (system, call) pairs that read "
                     "memory or nest a translation",
                traces_validated_against_impl=nimpl, spec_covered=specd, dropped_unaligned=ndropped,
-               facts=dict(sys_c=facts_impl, model=facts_model), case_kinds=dict(sorted(kinds.items())[:60]),
+               facts=dict(sys_c=facts_impl, model=facts_model), case_kinds=dict(sorted(kinds.items())[:140]),
                blocks=nblocks, samples=[dict(block=sample[:6] + ["..."] + sample[-2:])])
     return "proof", cov, ["get_page is a deterministic function of the page address (the 4-slot read cache is then transparent)",
                           "method indices stored in maps are NONE or < ADDRXLAT_SYS_METH_NUM (what the setters accept as meaningful)",
-                          "no ADDRXLAT_CUSTOM methods; PTE formats limited to pfn32/pfn64/ia32/ia32_pae/x86_64/riscv64/none",
+                          "ADDRXLAT_CUSTOM methods: the family whose first_step callback decides by (addr & mask) and finishes at once in an "
+                          "address space of its choice, leaves one linear level, or fails (next_step does nothing); multi-level custom methods are not generated",
+                          "PTE formats limited to pfn32/pfn64/ia32/ia32_pae/x86_64/riscv64/none",
+                          "re-entrant get-page callbacks: the family that reads one 64-bit object per page through the same context (no translation "
+                          "system) before delivering the page; whole conversions (op/conv) under such a callback are implementation-only: "
+                          "termination, nesting <= MAX_READ_NESTING, exactly-once/caps/pass-through monitors, not compared with model or specification",
                           "naturally aligned page-table and array reads (unaligned cases are dropped before they reach the C code)"]
 
 
 def replay(R, path):
     rep = json.load(open(path))
     exe = R.build_harness("s_sys", ["s_sys.c"])
+    m = re.search(r"max_read_nesting=(\d+)", extract_chains(kdf.REPO) or "")
+    NEST_BOUND[0] = int(m.group(1)) if m else GP_RUNAWAY
     lines = [l for l in rep["input"].split("\n") if l]
     kept, impl, model, expects, idx, rc, err, _ = evaluate(R, exe, lines, timeout=120)
     for j in range(len(idx)):
